@@ -260,7 +260,7 @@ def run_cfg(ctx, p, cfg):
                 r.require(bool(why), "assert:%s" % _akey(s, n_assert), fn=f, site=s.at, detail=why or "",
                           fail_detail="%s cannot be discharged: operand value sets %s — the SGR buffer is too short for the longest sequence (text + background + `;22`)" % (
                               s.what, [sorted(v) if v is not None else "TOP" for v in vals]))
-        r.floor("asserts", n_assert, 20)
+        r.floor("asserts", n_assert, 20 if p.meta.get("overflow_checks") else 9)
         # the final slice &buf[..=idx] / [..idx+1]
         idxs = [c for c in f.calls("core::ops::index::Index::index")]
         r.require(len(idxs) == 1, "one-slice", fn=f, detail="slicing sites: %d" % len(idxs))
@@ -363,6 +363,12 @@ def run_cfg(ctx, p, cfg):
         # increments match the number of bytes stored per arm
         incs = {}
         for blk, i, st in f.assigns():
+            if st["rv"]["k"] == "bin" and st["rv"]["op"] == "Add" and not st["lhs"]["p"]:
+                # release profile: plain (wrapping) add, no overflow assert
+                a_l = st["rv"]["a"].get("copy") or st["rv"]["a"].get("move")
+                c = st["rv"]["b"].get("const")
+                if a_l and not a_l["p"] and a_l["l"] == st["lhs"]["l"] and c and c.get("kind") == "int":
+                    incs[arm_of(blk)] = c["value"]
             if st["rv"]["k"] == "use" and not st["lhs"]["p"]:
                 src = st["rv"]["a"].get("move") or st["rv"]["a"].get("copy")
                 if src and src["p"] and isinstance(src["p"][0], dict) and src["p"][0].get("f") == "0":
